@@ -20,8 +20,8 @@ RULE = ('Cases: designed trajectories lat/lon/alt and roll/pitch/heading = drift
         'sub-seed; sampling ladder {100, 50, 25, 12.5} ms over 20..40 s; three accepted input forms (lla+velocity, lla only, '
         'initial lla+velocity) x {rate, increment}; plus rest cases (any lat/alt/attitude). Oracles: exact w_ib^b and f^b '
         'from jets (rate) or their 8-point Gauss-Legendre integrals (increment): e(h) <= 4 |imu_h - imu_h/2| + floor(h), '
-        'e(h/2) <= 0.75 e(h) + floor; returned trajectories of the three forms vs the design; strapdown round trip error '
-        'must keep falling by >= 25 percent per halving down to its floor; rest: gyro = C^T Omega, accel = -C^T g. '
+        'e(rung) <= 0.9 max e(up to 3 coarser rungs) + floor from the third rung on; returned trajectories of the three forms vs the design; strapdown round trip error '
+        'obeys the same windowed rule down to its floor; rest: gyro = C^T Omega, accel = -C^T g. '
         'Non-trivial = moving with non-constant heading and non-zero roll/pitch rates.')
 ASSUMPTIONS = ['rounding floor: accel 128*ulp(6.4e6 m)/h^2 + 1e-9 (the synthesiser differentiates inertial position twice: measured 3e-4 m/s^2 at 12.5 ms, 9e-6 at 100 ms), gyro 256*ulp(pi)/h + 1e-12',
                'errors are evaluated over all samples incl. the spline end intervals']
@@ -124,26 +124,38 @@ def run_truth(case, ctx):
         ev, tr, imu = synth(ctx, d, t, form, stype)
         res[h] = (ev, tr, imu, t)
     ulp_pos = np.spacing(max(abs(case['lat0']), abs(case['lon0']), 1.0)) * 111e3
+    # Error terms of different order in h can cancel on one rung (C01 seed-14 false alarm, DESIGN 9.3), so no rule compares a
+    # single pair of rungs: rule 1 takes the larger of two consecutive halving changes, rule 2 compares a rung with the largest
+    # error of the (up to three) coarser rungs before it, from the third rung on.
+    hs = LADDER + [LADDER[-1] / 2]
+    errs = [imu_errors(d, res[h][0], res[h][2], res[h][3], stype) for h in hs]
+    chg = [imu_change(res[hs[k]][2], res[hs[k + 1]][2], stype, hs[k]) for k in range(len(LADDER))]
     for k, h in enumerate(LADDER):
-        ev, tr, imu, t = res[h]
-        ev2, tr2, imu2, t2 = res[h / 2] if h / 2 in res else res[LADDER[k + 1]]
-        eg, ea = imu_errors(d, ev, imu, t, stype)
-        eg2, ea2 = imu_errors(d, ev2, imu2, t2, stype)
-        dg, da = imu_change(imu, imu2, stype, h)
+        eg, ea = errs[k]
+        dg = max(c[0] for c in chg[k:k + 2])
+        da = max(c[1] for c in chg[k:k + 2])
         fg = 256 * np.spacing(np.pi) / h + 1e-12
         fa = 128 * np.spacing(6.4e6) / h ** 2 + 1e-9
-        info = f'case={case} h={h}: gyro err {eg:.3e} (h/2: {eg2:.3e}, change {dg:.3e}), accel err {ea:.3e} (h/2: {ea2:.3e}, change {da:.3e})'
+        info = f'case={case} h={h}: gyro err by rung {[e[0] for e in errs]} changes {[c[0] for c in chg]}; accel err by rung {[e[1] for e in errs]} changes {[c[1] for c in chg]}'
         ctx.stat('gyro_err_over_4x_change', eg / (4 * dg + fg))
         ctx.stat('accel_err_over_4x_change', ea / (4 * da + fa))
         ctx.check(eg <= 4 * dg + fg, 'gyro_non_vanishing_error', lambda: info)
         ctx.check(ea <= 4 * da + fa, 'accel_non_vanishing_error', lambda: info)
-        ctx.stat('gyro_halving', eg2 / (0.75 * eg + 2 * fg))
-        ctx.stat('accel_halving', ea2 / (0.75 * ea + 4 * fa))
-        ctx.check(eg2 <= 0.75 * eg + 2 * fg, 'gyro_no_convergence', lambda: info)
-        ctx.check(ea2 <= 0.75 * ea + 4 * fa, 'accel_no_convergence', lambda: info)
+    for k in range(2, len(hs)):
+        h = hs[k]
+        fg = 256 * np.spacing(np.pi) / h + 1e-12
+        fa = 128 * np.spacing(6.4e6) / h ** 2 + 1e-9
+        eg2, ea2 = errs[k]
+        eg = max(e[0] for e in errs[max(0, k - 3):k])
+        ea = max(e[1] for e in errs[max(0, k - 3):k])
+        info = f'case={case} h={h}: gyro err by rung {[e[0] for e in errs]}; accel err by rung {[e[1] for e in errs]}'
+        ctx.stat('gyro_halving', eg2 / (0.9 * eg + fg))
+        ctx.stat('accel_halving', ea2 / (0.9 * ea + 2 * fa))
+        ctx.check(eg2 <= 0.9 * eg + fg, 'gyro_no_convergence', lambda: info)
+        ctx.check(ea2 <= 0.9 * ea + 2 * fa, 'accel_no_convergence', lambda: info)
     # (ii) the returned trajectory describes the designed motion (all three forms)
-    prev = None
-    for h in LADDER + [LADDER[-1] / 2]:
+    trs = []
+    for k, h in enumerate(hs):
         ev, tr, imu, t = res[h]
         rm, rt = W.radii(ev['lla'][:, 0], ev['lla'][:, 2])
         dn = (tr['lat'].values - ev['lla'][:, 0]) * W.D2R * rm
@@ -152,15 +164,16 @@ def run_truth(case, ctx):
         dvel = np.abs(tr[['VN', 'VE', 'VD']].values - ev['V']).max()
         datt = np.abs((tr[['roll', 'pitch', 'heading']].values - ev['rph'] + 180) % 360 - 180).max()
         ctx.check(datt <= 1e-9, 'returned_attitude_differs', f'{datt:.3e}')
-        cur = np.array([dpos, dvel])
-        if prev is not None:
+        trs.append(np.array([dpos, dvel]))
+        if k >= 2:
+            before = np.max(trs[max(0, k - 3):k], axis=0)
             fl = np.array([256 * ulp_pos + 1e-7, 256 * ulp_pos / h + 1e-7])
-            info = f'case={case} h={h}: returned trajectory vs design pos {cur[0]:.3e} m vel {cur[1]:.3e} m/s (previous rung {prev.tolist()})'
-            ctx.stat('traj_pos_halving', cur[0] / (0.75 * prev[0] + fl[0]))
-            ctx.stat('traj_vel_halving', cur[1] / (0.75 * prev[1] + fl[1]))
-            ctx.check(cur[0] <= 0.75 * prev[0] + fl[0], 'form_position_no_convergence', lambda: info)
-            ctx.check(cur[1] <= 0.75 * prev[1] + fl[1], 'form_velocity_no_convergence', lambda: info)
-        prev = cur
+            info = f'case={case} h={h}: returned trajectory vs design [pos m, vel m/s] by rung {[x.tolist() for x in trs]}'
+            ctx.stat('traj_pos_halving', trs[k][0] / (0.9 * before[0] + fl[0]))
+            ctx.stat('traj_vel_halving', trs[k][1] / (0.9 * before[1] + fl[1]))
+            ctx.check(trs[k][0] <= 0.9 * before[0] + fl[0], 'form_position_no_convergence', lambda: info)
+            ctx.check(trs[k][1] <= 0.9 * before[1] + fl[1], 'form_velocity_no_convergence', lambda: info)
+    prev = trs[-1]
     ctx.check(prev[0] <= 0.05 + 1e-4 * case['speed'] and prev[1] <= 0.01 + 1e-4 * case['speed'], 'form_describes_other_motion',
               lambda: f'case={case}: at h={LADDER[-1] / 2} returned trajectory differs from the design by {prev.tolist()}')
     # (iii) strapdown round trip from the first returned row reproduces the returned trajectory
@@ -171,15 +184,16 @@ def run_truth(case, ctx):
         back = ctx.sut(strapdown.Integrator(tr.iloc[0]).integrate, inc)
         rts.append(c01.table_distance(back, tr))
     rts = np.array(rts)
-    for k in range(len(LADDER) - 1):
+    for k in range(2, len(LADDER)):
         # rounding floor of the round trip: the synthesiser's acceleration noise 128 ulp(6.4e6)/h^2 (see ASSUMPTIONS) integrates to a
         # velocity random walk ~ a_noise sqrt(h T) and a position error ~ that x T (seed 10: 9e-4 m at 12.5 ms, 250 m/s, 20 s)
-        a_noise = 128 * np.spacing(6.4e6) / LADDER[k + 1] ** 2
-        v_noise = 0.2 * a_noise * np.sqrt(LADDER[k + 1] * T)
+        a_noise = 128 * np.spacing(6.4e6) / LADDER[k] ** 2
+        v_noise = 0.2 * a_noise * np.sqrt(LADDER[k] * T)
         fl = np.array([2e-4 + 0.5 * v_noise * T, 2e-5 + v_noise, 2e-8 + 1e-3 * v_noise])
+        before = rts[max(0, k - 3):k].max(axis=0)
         for g in range(3):
-            ctx.stat(f'roundtrip_halving_{c01.NAMES[g]}', rts[k + 1, g] / (0.75 * rts[k, g] + fl[g]))
-            ctx.check(rts[k + 1, g] <= 0.75 * rts[k, g] + fl[g], f'roundtrip_no_convergence:{c01.NAMES[g]}',
+            ctx.stat(f'roundtrip_halving_{c01.NAMES[g]}', rts[k, g] / (0.9 * before[g] + fl[g]))
+            ctx.check(rts[k, g] <= 0.9 * before[g] + fl[g], f'roundtrip_no_convergence:{c01.NAMES[g]}',
                       lambda: f'case={case}: round-trip {c01.NAMES[g]} error over the ladder {rts[:, g].tolist()} does not keep shrinking')
     lim = np.array([0.5 + 0.01 * case['speed'], 0.05 + 1e-3 * case['speed'], 1e-4 * (1 + case['att_amp'])])
     ctx.check(np.all(rts[-1] <= lim), 'roundtrip_error_too_large',
@@ -257,7 +271,7 @@ def run_sine_motion(case, ctx):
     stype = case['sensor_type']
     ctx.label(f'type={stype}', 'hemi=' + ('N' if case['lat0'] >= 0 else 'S') + ('E' if case['lon0'] >= 0 else 'W'))
     rts, dps = [], []
-    for dt in (0.1, 0.05, 0.025):
+    for dt in (0.1, 0.05, 0.025, 0.0125):
         tr, imu = ctx.sut(sim.generate_sine_velocity_motion, dt, case['T'], lla0, vmean, amp, case['period'], case['phase'], stype)
         t = np.asarray(tr.index, float)
         ctx.check(np.array_equal(t, np.arange(0, case['T'], dt)) and tr.index.equals(imu.index), 'time_index', '')
@@ -283,10 +297,18 @@ def run_sine_motion(case, ctx):
         ctx.stat('sine_position_derivative', dps[k + 1] / (0.75 * dps[k] + 1e-6 * (1 + vmax)))
         ctx.check(dps[k + 1] <= 0.75 * dps[k] + 1e-6 * (1 + vmax), 'position_not_integral_of_velocity',
                   lambda: f'case={case}: d(position)/dt - velocity over the ladder: {dps}')
+    # round trip: the integrator's error mixes orders in h (see run_truth), so a rung is compared with the largest of the coarser
+    # rungs before it, from the third rung on
+    for k in range(2, 4):
+        before = rts[max(0, k - 3):k].max(axis=0)
+        dtk = (0.1, 0.05, 0.025, 0.0125)[k]
+        a_noise = 128 * np.spacing(6.4e6) / dtk ** 2           # same rounding model as in run_truth
+        v_noise = 0.2 * a_noise * np.sqrt(dtk * case['T'])
+        fls = [2e-4 + 0.5 * v_noise * case['T'], 2e-5 + v_noise, 2e-8 + 1e-3 * v_noise]
         for g in range(3):
-            fl = [2e-4, 2e-5, 2e-8][g]
-            ctx.stat(f'sine_roundtrip_{c01.NAMES[g]}', rts[k + 1, g] / (0.75 * rts[k, g] + fl))
-            ctx.check(rts[k + 1, g] <= 0.75 * rts[k, g] + fl, f'sine_roundtrip_no_convergence:{c01.NAMES[g]}',
+            fl = fls[g]
+            ctx.stat(f'sine_roundtrip_{c01.NAMES[g]}', rts[k, g] / (0.9 * before[g] + fl))
+            ctx.check(rts[k, g] <= 0.9 * before[g] + fl, f'sine_roundtrip_no_convergence:{c01.NAMES[g]}',
                       lambda: f'case={case}: round trip {c01.NAMES[g]} error over the ladder {rts[:, g].tolist()}')
     ctx.mark_nontrivial(case['amp'] > 0 and vmax >= 5)
 
